@@ -198,6 +198,7 @@ def run(chk, only=None):
                 paths = ex.run(body)
                 chk.paths += len(paths)
                 for p in paths:
+                    ctx.assign = dict(p.assign)  # replays fall back to this path's witness point
                     if p.kind == "exc":
                         chk.notes.append(f"{cname}: raises {type(p.value).__name__}: {str(p.value)[:80]} (C16)")
                         continue
